@@ -221,6 +221,15 @@ func c07cfgs() []chain.Config {
 		c.Pos = &p
 		out = append(out, c)
 	}
+	// extreme slash fractions at a stake that truncates
+	for _, fr := range [][2]string{{"0", "0"}, {"1", "1"}, {"0.000000000000000001", "0.999999999999999999"}, {"0.5", "0.000001"}} {
+		c := baseCfg()
+		c.Vals = []chain.GenVal{{Key: 0, Stake: 3*min + 333333}, {Key: 1, Stake: 3 * min}}
+		p := *c.Pos
+		p.SlashDoubleStr, p.SlashDowntimeStr = fr[0], fr[1]
+		c.Pos = &p
+		out = append(out, c)
+	}
 	return out
 }
 
@@ -333,7 +342,7 @@ func posScenarios(id, tier string) []Scenario {
 			if i > 1 && !th {
 				kk = 1
 			}
-			scs = append(scs, Scenario{Name: fmt.Sprintf("slash-stake=%d", c.Vals[0].Stake), Cfg: c, Alphabet: slashAlphabet(), K: kk, D: d, Tail: 1})
+			scs = append(scs, Scenario{Name: fmt.Sprintf("slash-stake=%d-fdouble=%s-fdown=%s", c.Vals[0].Stake, c.Pos.SlashDoubleStr, c.Pos.SlashDowntimeStr), Cfg: c, Alphabet: slashAlphabet(), K: kk, D: d, Tail: 1})
 		}
 		return scs
 	case "C08":
